@@ -21,6 +21,8 @@ THEOREMS = [
     "Vinegar.C09.foreign_then_pkt",
     "Vinegar.C09.foreign_then_silence",
     "Vinegar.C09.foreign_then_end",
+    "Vinegar.C02.c02Check_runTransfer",
+    "Vinegar.C01.c01Check_runTransfer",
 ]
 TRUSTED_BASE = T.TRUSTED_BASE
 ASSUMPTIONS = T.ASSUMPTIONS
@@ -32,7 +34,8 @@ RULE = ("(a) request-port datagrams: every datagram of length <= 1, every 2-byte
         "> 3 events; distinct by SHA-1 of the case")
 BUDGET_S = {"quick": 60, "thorough": 1200}
 
-judge = B.make_judge(required=["reqport", "c09"], project=T.proj_errors, nontrivial_port=True)
+# a foreign packet must not affect the transfer's data or timing: the C01 / C02 checkers are required as well
+judge = B.make_judge(required=["reqport", "c09", "c02", "c01"], project=T.proj_errors, nontrivial_port=True)
 
 
 def signature(case, j):
